@@ -8,6 +8,7 @@ import Pdpy11.Driver.Dec
 import Pdpy11.Driver.Container
 import Pdpy11.Driver.Listing
 import Pdpy11.Driver.Parse
+import Pdpy11.Driver.Expr
 namespace Pdpy11.Driver
 
 def handle (line : String) : String :=
@@ -33,6 +34,8 @@ def handle (line : String) : String :=
     | "lst" => handleLst args
     | "lstpath" => handleLstPath args
     | "parse" => handleParse args
+    | "expr" => handleExpr args
+    | "tree" => handleTree args
     | "ping" => "pong"
     | _ => "bad-op"
 
